@@ -4,6 +4,12 @@
 //! `CardanoTransactionRepository` (file database) through the signer's own `ChainDataStore`
 //! wrapper (compiled from /repo by `#[path]`).
 //!
+//! The histories RE-INCLUDE transactions: a fork carries transactions of the blocks it abandons, in
+//! other blocks (earlier / later block number, same or another block range, the same block number
+//! under another block hash), also across successive switches, prunings and restarts. `cardano_tx` is
+//! keyed by the transaction hash alone and filled with `insert or ignore`: the new row survives only if
+//! the roll-back removed the old one (`on delete cascade`, foreign keys ON on the pooled connections).
+//!
 //! K: one request per history — the replies the real streamer consumed during each import, restarts
 //!    and prunings — and the trace (resume point, store calls, class letter, store checksum after every
 //!    step, full store dump at the end) compared with the Lean model `Import.*`.
@@ -57,7 +63,9 @@ struct Blk {
     id: u32,
     number: u64,
     slot: u64,
-    ntx: u8,
+    /// transaction ids, in the order the block delivers them (a transaction is named by its id only:
+    /// the same id in two blocks is the same transaction hash)
+    txs: Vec<u32>,
 }
 
 fn hash_bytes(id: u32) -> Vec<u8> {
@@ -67,11 +75,12 @@ fn hash_bytes(id: u32) -> Vec<u8> {
 fn hash_hex(id: u32) -> String {
     format!("{:08x}", id)
 }
-fn tx_name(id: u32, k: u8) -> String {
-    format!("t{}x{}", id, k)
+/// fixed width: the order of the hashes is the order of the ids
+fn tx_name(t: u32) -> String {
+    format!("t{:06}", t)
 }
 fn scanned(b: &Blk) -> ScannedBlock {
-    ScannedBlock::new(hash_bytes(b.id), BlockNumber(b.number), SlotNumber(b.slot), (0..b.ntx).map(|k| tx_name(b.id, k)).collect::<Vec<_>>())
+    ScannedBlock::new(hash_bytes(b.id), BlockNumber(b.number), SlotNumber(b.slot), b.txs.iter().map(|t| tx_name(*t)).collect::<Vec<_>>())
 }
 
 // --------------------------------------------------------------------------------------- simulator
@@ -303,10 +312,14 @@ impl TransactionsImporter for NoImport {
 struct Dump {
     /// (id, number, slot) ordered by number
     blocks: Vec<(u32, u64, u64)>,
-    /// (tx name, block id) ordered by (block number, name)
-    txs: Vec<(String, u32)>,
+    /// the join every read query goes through: (transaction hash, block number, block id) ordered by
+    /// (block number, hash)
+    txs: Vec<(String, u64, u32)>,
     roots: Vec<(u64, u64, String)>,
     legacy: Vec<(u64, u64, String)>,
+    /// rows of `cardano_tx` whose block is not in `cardano_block` (read from the table itself):
+    /// `hash@block hash`; none while the foreign key is enforced
+    orphans: Vec<String>,
 }
 
 impl Dump {
@@ -317,7 +330,7 @@ impl Dump {
         }
         s.push_str("]T[");
         for (i, t) in self.txs.iter().enumerate() {
-            let _ = write!(s, "{}({},{})", if i > 0 { "," } else { "" }, t.0, t.1);
+            let _ = write!(s, "{}({},{},{})", if i > 0 { "," } else { "" }, t.0, t.1, t.2);
         }
         s.push_str("]R[");
         for (i, r) in self.roots.iter().enumerate() {
@@ -328,6 +341,9 @@ impl Dump {
             let _ = write!(s, "{}({},{},{})", if i > 0 { "," } else { "" }, r.0, r.1, r.2);
         }
         s.push(']');
+        if !self.orphans.is_empty() {
+            let _ = write!(s, "O[{}]", self.orphans.join(","));
+        }
         s
     }
     fn summary(&self) -> String {
@@ -353,6 +369,9 @@ struct Node {
     max_per_poll: usize,
 }
 
+/// The Cardano transactions database opened the way the signer and the aggregator open it
+/// (`DependenciesBuilder::build_cardano_tx_sqlite_connection_pool`, aggregator `support/sqlite.rs`):
+/// `EnableForeignKeys` + `build_pool`, every store call on a POOLED connection.
 fn open_repo(path: &Path) -> Arc<SignerCardanoChainDataRepository> {
     let pool = ConnectionBuilder::open_file(path)
         .with_options(&[ConnectionOptions::EnableForeignKeys, ConnectionOptions::EnableWriteAheadLog])
@@ -360,6 +379,24 @@ fn open_repo(path: &Path) -> Arc<SignerCardanoChainDataRepository> {
         .build_pool(1)
         .unwrap();
     Arc::new(SignerCardanoChainDataRepository::new(Arc::new(pool)))
+}
+
+/// the rows of the table `cardano_tx` itself (no join) that name a block `cardano_block` does not hold
+fn raw_orphans(db_path: &Path) -> Vec<String> {
+    use mithril_persistence::sqlite::ConnectionExtensions;
+    let conn = ConnectionBuilder::open_file(db_path).build_without_migrations().unwrap();
+    let cell: String = conn
+        .query_single_cell(
+            "select coalesce(group_concat(x, ','), '') from (select transaction_hash || '@' || block_hash as x from cardano_tx \
+             where block_hash not in (select block_hash from cardano_block) order by transaction_hash)",
+            &[],
+        )
+        .unwrap();
+    if cell.is_empty() {
+        vec![]
+    } else {
+        cell.split(',').map(|x| x.to_string()).collect()
+    }
 }
 
 impl Node {
@@ -408,6 +445,7 @@ impl Node {
     }
     fn dump(&self) -> Dump {
         let repo = self.repo.clone();
+        let db_path = self.db_path.clone();
         self.rt.block_on(async move {
             let mut d = Dump::default();
             let id_of = |h: &str| u32::from_str_radix(h, 16).unwrap_or(u32::MAX);
@@ -418,7 +456,8 @@ impl Node {
             let mut txs: Vec<(u64, String, u32)> =
                 repo.get_all_transactions().await.unwrap().into_iter().map(|t| (*t.block_number, t.transaction_hash, id_of(&t.block_hash))).collect();
             txs.sort();
-            d.txs = txs.into_iter().map(|t| (t.1, t.2)).collect();
+            d.txs = txs.into_iter().map(|t| (t.1, t.0, t.2)).collect();
+            d.orphans = raw_orphans(&db_path);
             for r in repo.get_all_block_range_root().unwrap() {
                 d.roots.push((*r.range.start, *r.range.end, r.merkle_root.to_hex()));
             }
@@ -486,12 +525,20 @@ struct History {
 /// `Good` of the Lean model on one import, mirrored: the class letter of the import
 ///   e  early exit (target not above the highest stored block)
 ///   p  the store is not a chain (not strictly increasing in number and slot) — an earlier class left it so
-///   x  protocol violation: a forward that does not extend the chain
+///   x  protocol violation: a forward that does not extend the chain, or (all other clauses holding) a
+///      chain presented by the node that carries a transaction twice (`GoodTx` of the Lean model)
 ///   1  the echo roll-back to the scan's start point is not a no-op
 ///   2  a roll-back to a point that is not in the chain known to the node (below / outside the store)
 ///   3  the target exceeds the highest block delivered: the last complete range below it is not covered
 ///   g  good: the refinement theorem applies
-fn classify(s0: &[(u32, u64, u64)], from_slot: u64, target: u64, replies: &[Reply], after: Option<&[(u32, u64, u64)]>) -> char {
+fn classify(
+    s0: &[(u32, u64, u64)],
+    from_slot: u64,
+    target: u64,
+    replies: &[Reply],
+    after: Option<&[(u32, u64, u64)]>,
+    known: &BTreeMap<u32, Blk>,
+) -> char {
     if let Some(hi) = s0.iter().map(|b| b.1).max() {
         if hi >= target {
             return 'e';
@@ -508,6 +555,12 @@ fn classify(s0: &[(u32, u64, u64)], from_slot: u64, target: u64, replies: &[Repl
     }
     let mut v: Vec<(u32, u64, u64)> = s0.to_vec();
     let mut lp = false;
+    // no transaction twice on a chain the node presents
+    let fresh = |v: &[(u32, u64, u64)]| -> bool {
+        let mut seen: BTreeSet<u32> = BTreeSet::new();
+        v.iter().all(|x| known.get(&x.0).map(|b| b.txs.iter().all(|t| seen.insert(*t))).unwrap_or(true))
+    };
+    let mut tx_twice = !fresh(&v);
     for r in replies {
         match r {
             Reply::Nothing => {}
@@ -516,6 +569,9 @@ fn classify(s0: &[(u32, u64, u64)], from_slot: u64, target: u64, replies: &[Repl
                     return 'x';
                 }
                 v.push((b.id, b.number, b.slot));
+                if !tx_twice && !fresh(&v) {
+                    tx_twice = true;
+                }
                 if b.number <= target {
                     lp = true;
                 }
@@ -534,6 +590,9 @@ fn classify(s0: &[(u32, u64, u64)], from_slot: u64, target: u64, replies: &[Repl
                 v.retain(|x| x.2 <= *s);
             }
         }
+    }
+    if tx_twice {
+        return 'x';
     }
     let k = (target + 1) / 15;
     if let Some(after) = after {
@@ -563,6 +622,8 @@ struct Outcome {
     s_checks: u64,
     s2_checks: u64,
     taint: Option<String>,
+    /// transactions stored (at a sampled import) under a block other than the one that delivered them first
+    reincluded: u64,
     /// streamer branches: [roll-backs resolved in the buffer, full roll-backs, skipped echo, forwards dropped above the target, polls capped by max_roll_forwards_per_poll]
     branches: [u64; 5],
 }
@@ -598,6 +659,8 @@ fn run_history(env: &Env, h: &History, rng: &mut Rng, plan: SPlan) -> Outcome {
     let mut steps: Vec<String> = vec![];
     let mut trace: Vec<String> = vec![];
     let mut blocks_seen: BTreeMap<u32, Blk> = BTreeMap::new();
+    // transaction id -> the blocks that delivered it so far
+    let mut tx_blocks: BTreeMap<String, BTreeSet<u32>> = BTreeMap::new();
     let mut dump = Dump::default();
     let mut pruned_below: u64 = 0;
     let mut tainted_letters = false;
@@ -666,6 +729,9 @@ fn run_history(env: &Env, h: &History, rng: &mut Rng, plan: SPlan) -> Outcome {
                 for r in &replies {
                     if let Reply::Fwd(b) = r {
                         blocks_seen.insert(b.id, b.clone());
+                        for t in &b.txs {
+                            tx_blocks.entry(tx_name(*t)).or_default().insert(b.id);
+                        }
                     }
                 }
                 let from = match set_points.first() {
@@ -674,7 +740,7 @@ fn run_history(env: &Env, h: &History, rng: &mut Rng, plan: SPlan) -> Outcome {
                     Some((s, Some(_))) => format!("{}", s),
                 };
                 let from_slot = set_points.first().map(|p| p.0).unwrap_or(0);
-                let letter = classify(&before.blocks, from_slot, *target, &replies, if res == "ok" { Some(&dump.blocks) } else { None });
+                let letter = classify(&before.blocks, from_slot, *target, &replies, if res == "ok" { Some(&dump.blocks) } else { None }, &blocks_seen);
                 {
                     let backs = replies.iter().filter(|r| matches!(r, Reply::Back(..))).count() as u64;
                     let full = ops.split(',').filter(|o| o.starts_with('r')).count() as u64;
@@ -737,7 +803,7 @@ fn run_history(env: &Env, h: &History, rng: &mut Rng, plan: SPlan) -> Outcome {
                     let keep_ids: BTreeSet<u32> = dump.blocks.iter().filter(|b| b.1 <= *target).map(|b| b.0).collect();
                     (
                         dump.blocks.iter().filter(|b| b.1 <= *target).cloned().collect::<Vec<_>>(),
-                        dump.txs.iter().filter(|t| keep_ids.contains(&t.1)).cloned().collect::<Vec<_>>(),
+                        dump.txs.iter().filter(|t| keep_ids.contains(&t.2)).cloned().collect::<Vec<_>>(),
                         dump.roots.iter().filter(|r| r.1 <= *target + 1).cloned().collect::<Vec<_>>(),
                         dump.legacy.iter().filter(|r| r.1 <= *target + 1).cloned().collect::<Vec<_>>(),
                         fd.blocks.iter().filter(|b| b.1 >= lowest_kept || pruned_below == 0).cloned().collect::<Vec<_>>(),
@@ -747,13 +813,26 @@ fn run_history(env: &Env, h: &History, rng: &mut Rng, plan: SPlan) -> Outcome {
                     (dump.blocks.clone(), dump.txs.clone(), dump.roots.clone(), dump.legacy.clone(), fd.blocks.iter().filter(|b| b.1 >= lowest_kept || pruned_below == 0).cloned().collect::<Vec<_>>(), fd.txs.clone())
                 };
                 let f_ids: BTreeSet<u32> = f_blocks.iter().map(|b| b.0).collect();
-                let f_txs: Vec<(String, u32)> = f_txs.into_iter().filter(|t| f_ids.contains(&t.1)).collect();
+                let f_txs: Vec<(String, u64, u32)> = f_txs.into_iter().filter(|t| f_ids.contains(&t.2)).collect();
+                out.reincluded += a_txs.iter().filter(|t| tx_blocks.get(&t.0).map(|bs| bs.iter().any(|b| *b != t.2)).unwrap_or(false)).count() as u64;
                 let mut diffs = vec![];
+                // a transaction of the canonical chain whose block IS stored, that an abandoned block had
+                // delivered before, and that the store does not hold under its canonical block
+                let a_ids: BTreeSet<u32> = a_blocks.iter().map(|b| b.0).collect();
+                let lost: Vec<(String, u64, u32)> = f_txs
+                    .iter()
+                    .filter(|t| !a_txs.contains(t) && a_ids.contains(&t.2) && tx_blocks.get(&t.0).map(|bs| bs.iter().any(|b| *b != t.2)).unwrap_or(false))
+                    .cloned()
+                    .collect();
                 if a_blocks != f_blocks {
                     diffs.push(format!("blocks differ: stored {:?} vs fresh {:?}", first_diff(&a_blocks, &f_blocks), first_diff(&f_blocks, &a_blocks)));
                 }
                 if a_txs != f_txs {
-                    diffs.push("transactions differ".to_string());
+                    diffs.push(format!(
+                        "transactions (hash, block number, block) differ: stored has {:?} that fresh has not, fresh has {:?} that stored has not",
+                        first_diff(&a_txs, &f_txs),
+                        first_diff(&f_txs, &a_txs)
+                    ));
                 }
                 if a_roots != fd.roots {
                     diffs.push(format!("block-range roots differ: stored {:?} vs fresh {:?}", first_diff(&a_roots, &fd.roots), first_diff(&fd.roots, &a_roots)));
@@ -764,8 +843,43 @@ fn run_history(env: &Env, h: &History, rng: &mut Rng, plan: SPlan) -> Outcome {
                 if !diffs.is_empty() {
                     let canon_ids: BTreeSet<u32> = canon.iter().map(|b| b.id).collect();
                     let stale = early && dump.blocks.last().map(|b| !canon_ids.contains(&b.0)).unwrap_or(false);
-                    let class = out.taint.clone().unwrap_or_else(|| if stale { "stale-noop-import".into() } else { "diverged".into() });
-                    out.sfails.push((class, format!("after import({}) [{}]: {}", target, letter, diffs.join("; "))));
+                    let class = out.taint.clone().unwrap_or_else(|| {
+                        if stale {
+                            "stale-noop-import".into()
+                        } else if !lost.is_empty() {
+                            "reincluded-transaction-lost".into()
+                        } else {
+                            "diverged".into()
+                        }
+                    });
+                    let lost_txt = if lost.is_empty() {
+                        String::new()
+                    } else {
+                        let t = &lost[0];
+                        format!(
+                            "; transaction {} is in block {} (number {}) of the canonical chain, which is stored, but the store does not hold it there — it was delivered before by the abandoned block(s) {:?} ({} such transaction(s))",
+                            t.0,
+                            t.2,
+                            t.1,
+                            tx_blocks.get(&t.0).map(|bs| bs.iter().filter(|b| **b != t.2).cloned().collect::<Vec<_>>()).unwrap_or_default(),
+                            lost.len()
+                        )
+                    };
+                    out.sfails.push((class, format!("after import({}) [{}]: {}{}", target, letter, diffs.join("; "), lost_txt)));
+                }
+                // the table `cardano_tx` itself holds no row of a block that is no longer stored
+                if !dump.orphans.is_empty() {
+                    let class = out.taint.clone().unwrap_or_else(|| "orphan-transaction-rows".into());
+                    out.sfails.push((
+                        class,
+                        format!(
+                            "after import({}) [{}]: cardano_tx holds {} row(s) of blocks that are not stored (first: {}); a fresh import holds none",
+                            target,
+                            letter,
+                            dump.orphans.len(),
+                            dump.orphans[0]
+                        ),
+                    ));
                 }
                 // (2) signable roots do not depend on how far beyond the beacon the node imported
                 let hi = dump.blocks.iter().map(|b| b.1).max().unwrap_or(0).min(*target);
@@ -798,6 +912,8 @@ fn run_history(env: &Env, h: &History, rng: &mut Rng, plan: SPlan) -> Outcome {
                         let class = out.taint.clone().unwrap_or_else(|| {
                             if stale && early {
                                 "stale-noop-import".into()
+                            } else if !lost.is_empty() {
+                                "reincluded-transaction-lost".into()
                             } else if inside && lm == lt {
                                 "beacon-inside-stored-range".into()
                             } else {
@@ -814,7 +930,7 @@ fn run_history(env: &Env, h: &History, rng: &mut Rng, plan: SPlan) -> Outcome {
     node.close();
     let mut blocks = String::from("[");
     for (i, b) in blocks_seen.values().enumerate() {
-        let _ = write!(blocks, "{}({},{},{},{})", if i > 0 { "," } else { "" }, b.id, b.number, b.slot, b.ntx);
+        let _ = write!(blocks, "{}({},{},{},[{}])", if i > 0 { "," } else { "" }, b.id, b.number, b.slot, b.txs.iter().map(|t| t.to_string()).collect::<Vec<_>>().join(","));
     }
     blocks.push(']');
     out.req = format!("c13.run max={} blocks={} steps=[{}]", h.max_per_poll, blocks, steps.join(","));
@@ -831,13 +947,27 @@ fn first_diff<T: PartialEq + Clone + std::fmt::Debug>(a: &[T], b: &[T]) -> Optio
 struct Gen {
     chain: Vec<Blk>,
     next_id: u32,
+    next_tx: u32,
     sparse: bool,
     tx_rate: u64,
     /// number of the first block of every chain of this history (0 or 1)
     first_number: u64,
+    /// the mempool: transactions of abandoned blocks that are not on the node's chain
+    pool: Vec<u32>,
+    /// chance (%) that a transaction of a new block is a re-included one when the pool is not empty
+    reinclude: u64,
+    /// a new block whose number an abandoned block had takes exactly that block's transactions
+    /// (same transactions, same block number, another block hash)
+    mirror: bool,
+    /// blocks abandoned by the switches so far, by block number (the latest)
+    abandoned: BTreeMap<u64, Vec<u32>>,
 }
 
 impl Gen {
+    fn new(rng: &mut Rng, sparse: bool, tx_rate: u64, first_number: u64, reinclude: u64, mirror: bool) -> Gen {
+        let _ = rng;
+        Gen { chain: vec![], next_id: 1, next_tx: 1, sparse, tx_rate, first_number, pool: vec![], reinclude, mirror, abandoned: BTreeMap::new() }
+    }
     fn new_blocks(&mut self, rng: &mut Rng, after: Option<&Blk>, n: usize) -> Vec<Blk> {
         let mut out = vec![];
         let (mut number, mut slot) = match after {
@@ -847,8 +977,39 @@ impl Gen {
         for _ in 0..n {
             number = number.wrapping_add(if self.sparse && rng.chance(1, 6) { rng.range(2, 20) } else { 1 });
             slot += rng.range(1, 4);
-            let ntx = if rng.below(100) < self.tx_rate { rng.range(1, 3) as u8 } else { 0 };
-            out.push(Blk { id: self.next_id, number, slot, ntx });
+            let mut txs: Vec<u32> = vec![];
+            let mirrored = if self.mirror { self.abandoned.get(&number).cloned() } else { None };
+            match mirrored {
+                // the abandoned block of this number, under another hash: every transaction of it still in the pool
+                Some(old) if old.iter().any(|t| self.pool.contains(t)) => {
+                    for t in old {
+                        if let Some(i) = self.pool.iter().position(|x| *x == t) {
+                            self.pool.remove(i);
+                            txs.push(t);
+                        }
+                    }
+                }
+                _ => {
+                    // a fork that abandons transactions takes them up again more eagerly than it creates new ones
+                    let want = rng.below(100) < self.tx_rate || (!self.pool.is_empty() && rng.below(100) < self.reinclude);
+                    let ntx = if want { rng.range(1, 3) } else { 0 };
+                    for _ in 0..ntx {
+                        if !self.pool.is_empty() && rng.below(100) < self.reinclude {
+                            // any abandoned transaction: from an earlier or a later block, the same or another range
+                            let i = rng.below(self.pool.len() as u64) as usize;
+                            txs.push(self.pool.swap_remove(i));
+                        } else {
+                            txs.push(self.next_tx);
+                            self.next_tx += 1;
+                        }
+                    }
+                }
+            }
+            // the order of delivery inside a block is not the order of the hashes
+            if txs.len() > 1 && rng.bool() {
+                txs.reverse();
+            }
+            out.push(Blk { id: self.next_id, number, slot, txs });
             self.next_id += 1;
         }
         out
@@ -861,6 +1022,11 @@ impl Gen {
     }
     fn switch(&mut self, rng: &mut Rng, keep: usize, n: usize) -> Mutation {
         let keep = keep.min(self.chain.len());
+        // the transactions of the abandoned blocks go back to the mempool
+        for b in self.chain[keep..].iter() {
+            self.pool.extend(b.txs.iter().cloned());
+            self.abandoned.insert(b.number, b.txs.clone());
+        }
         self.chain.truncate(keep);
         let last = self.chain.last().cloned();
         let bs = self.new_blocks(rng, last.as_ref(), n);
@@ -913,7 +1079,13 @@ fn gen_history(rng: &mut Rng, thorough: bool) -> (History, Mode) {
     };
     let wild = mode == Mode::Wild;
     let max_per_poll = *rng.pick(&[1usize, 2, 3, 5, 10, 30, 100]);
-    let mut g = Gen { chain: vec![], next_id: 1, sparse: rng.chance(1, 6), tx_rate: *rng.pick(&[0u64, 10, 40, 80]), first_number: rng.below(2) };
+    let sparse = rng.chance(1, 6);
+    let tx_rate = *rng.pick(&[0u64, 10, 40, 80]);
+    let first_number = rng.below(2);
+    // three histories out of four re-include transactions of the forks they abandon
+    let reinclude = *rng.pick(&[0u64, 35, 70, 100]);
+    let mirror = rng.chance(1, 4);
+    let mut g = Gen::new(rng, sparse, tx_rate, first_number, reinclude, mirror);
     let mut events = vec![];
     let n_events = rng.range(5, if thorough { 80 } else { 40 }) as usize;
     let max_chain = 120usize;
@@ -1066,8 +1238,15 @@ fn gen_history(rng: &mut Rng, thorough: bool) -> (History, Mode) {
 
 // ------------------------------------------------------------------------------ witnesses (corpus)
 
+/// blocks with `ntx` transactions of their own each (transaction id = 10 * block id + k)
 fn chain_of(ids_from: u32, numbers: std::ops::RangeInclusive<u64>, slot_of: impl Fn(u64) -> u64, ntx: u8) -> Vec<Blk> {
-    numbers.enumerate().map(|(i, n)| Blk { id: ids_from + i as u32, number: n, slot: slot_of(n), ntx }).collect()
+    numbers
+        .enumerate()
+        .map(|(i, n)| {
+            let id = ids_from + i as u32;
+            Blk { id, number: n, slot: slot_of(n), txs: (0..ntx as u32).map(|k| id * 10 + k).collect() }
+        })
+        .collect()
 }
 
 /// class 1: a real roll-back to the scan's start point after forwards
@@ -1160,6 +1339,139 @@ fn w_stale_noop() -> History {
 fn w_beacon_inside() -> History {
     let a = chain_of(1, 1..=50, |n| n * 10, 1);
     History { max_per_poll: 100, await_sem: false, events: vec![Event::Mutate(Mutation::Grow(a)), Event::Import { target: 50, mid: vec![] }] }
+}
+
+/// a transaction of an abandoned block is included again in ANOTHER block of the new fork (the usual
+/// fate of a rolled-back transaction): trunk 1..25, fork A 26..30 with the transaction in A27, the node
+/// switches at 25 to fork B 26..40 with the transaction in B28
+fn w_reinclude() -> History {
+    let trunk = chain_of(1, 1..=25, |n| n * 10, 1);
+    let mut a = chain_of(101, 26..=30, |n| n * 10 + 1, 0);
+    a[1].txs = vec![7777];
+    let mut b = chain_of(201, 26..=40, |n| n * 10 + 2, 0);
+    b[2].txs = vec![7777];
+    History {
+        max_per_poll: 10,
+        await_sem: false,
+        events: vec![
+            Event::Mutate(Mutation::Grow(trunk)),
+            Event::Mutate(Mutation::Grow(a)),
+            Event::Import { target: 30, mid: vec![] },
+            Event::Mutate(Mutation::Switch { keep: 25, blocks: b }),
+            Event::Import { target: 40, mid: vec![] },
+        ],
+    }
+}
+
+/// where a fork puts the transactions of the blocks it abandons
+#[derive(Clone, Copy, Debug)]
+enum Place {
+    /// k-th transaction of the abandoned block n -> block n + 1 + k
+    Later,
+    /// -> block n - 1 - k
+    Earlier,
+    /// -> the block of the same number (another block hash)
+    SameNumber,
+    /// -> 15 blocks later: another block range
+    RangeUp,
+    /// transactions of the range [45,60) -> blocks of the range [30,45)
+    RangeDown,
+    /// first transaction -> the first block of the fork, the others -> its last blocks
+    Scattered,
+}
+
+/// the fork `lo..=hi` that abandons `old`: every transaction of `old` exactly once, placed by `p`,
+/// plus transactions of its own in every third block
+fn fork_reincluding(p: Place, old: &[Blk], ids_from: u32, lo: u64, hi: u64, slot_off: u64, own_from: u32) -> Vec<Blk> {
+    let mut at: BTreeMap<u64, Vec<u32>> = BTreeMap::new();
+    for b in old {
+        for (k, t) in b.txs.iter().enumerate() {
+            let k = k as u64;
+            let n = match p {
+                Place::Later => b.number + 1 + k,
+                Place::Earlier => b.number.saturating_sub(1 + k),
+                Place::SameNumber => b.number,
+                Place::RangeUp => b.number + 15,
+                Place::RangeDown => {
+                    if b.number >= 45 && lo < 45 {
+                        lo + (b.number - lo) % (45 - lo)
+                    } else {
+                        b.number
+                    }
+                }
+                Place::Scattered => {
+                    if k == 0 {
+                        lo
+                    } else {
+                        hi - (b.number.saturating_sub(lo)).min(hi - lo)
+                    }
+                }
+            };
+            at.entry(n.max(lo).min(hi)).or_default().push(*t);
+        }
+    }
+    (lo..=hi)
+        .enumerate()
+        .map(|(i, n)| {
+            let mut txs = at.remove(&n).unwrap_or_default();
+            if n % 3 == 0 {
+                txs.push(own_from + n as u32);
+            }
+            Blk { id: ids_from + i as u32, number: n, slot: n * 10 + slot_off, txs }
+        })
+        .collect()
+}
+
+/// forks that RE-INCLUDE the transactions of the blocks they abandon: every placement, small and large
+/// batches, with a pruning, a second switch (a transaction moves A -> B -> C), a restart and a scan
+/// between the two switches, and a switch that arrives while fork A is being read
+fn reinclude_histories() -> Vec<(&'static str, History)> {
+    let mut out = vec![];
+    for p in [Place::Later, Place::Earlier, Place::SameNumber, Place::RangeUp, Place::RangeDown, Place::Scattered] {
+        for max in [4usize, 100] {
+            for mode in 0..5 {
+                let trunk = chain_of(1, 1..=40, |n| n * 10, 1);
+                // fork A: 41..=50, two transactions per block
+                let a: Vec<Blk> = (41..=50u64).map(|n| Blk { id: 100 + n as u32, number: n, slot: n * 10 + 1, txs: vec![5000 + 2 * n as u32, 5001 + 2 * n as u32] }).collect();
+                let b = fork_reincluding(p, &a, 241, 41, 62, 2, 6000);
+                // fork C leaves B at 45 and re-includes what B46.. carried (transactions of A among them)
+                let c = fork_reincluding(p, &b[5..], 346, 46, 70, 3, 7000);
+                let mut ev = vec![Event::Mutate(Mutation::Grow(trunk)), Event::Import { target: 40, mid: vec![] }];
+                match mode {
+                    // the switch arrives while fork A is being read: after the echo and six blocks of A
+                    4 => {
+                        ev.push(Event::Mutate(Mutation::Grow(a)));
+                        ev.push(Event::Import { target: 50, mid: vec![(7, Mutation::Switch { keep: 40, blocks: b })] });
+                        ev.push(Event::Import { target: 62, mid: vec![] });
+                    }
+                    _ => {
+                        ev.push(Event::Mutate(Mutation::Grow(a)));
+                        ev.push(Event::Import { target: 50, mid: vec![] });
+                        if mode == 1 {
+                            // roots [0,15) [15,30) [30,45): blocks below 30 - 10 go; the roll-back is anchored above
+                            ev.push(Event::Prune(10));
+                        }
+                        ev.push(Event::Mutate(Mutation::Switch { keep: 40, blocks: b }));
+                        ev.push(Event::Import { target: 55, mid: vec![] });
+                        if mode == 3 {
+                            ev.push(Event::Restart);
+                        }
+                        ev.push(Event::Import { target: 62, mid: vec![] });
+                        if mode >= 2 {
+                            if mode == 3 {
+                                ev.push(Event::Prune(20));
+                            }
+                            ev.push(Event::Mutate(Mutation::Switch { keep: 45, blocks: c }));
+                            ev.push(Event::Import { target: 66, mid: vec![] });
+                            ev.push(Event::Import { target: 70, mid: vec![] });
+                        }
+                    }
+                }
+                out.push(("grid-reinclude", History { max_per_poll: max, await_sem: false, events: ev }));
+            }
+        }
+    }
+    out
 }
 
 /// deterministic families aimed at the anticipated breaking changes
@@ -1304,6 +1616,13 @@ fn main() {
         emit(&mut sink, "corpus-stale-noop", &o, "witness: import at or below the highest stored block after a chain switch", args.only);
     }
     {
+        // not a finding: the re-included transaction must be stored under its new block (an S failure here
+        // is of the class `reincluded-transaction-lost`)
+        let o = run_history(&env, &w_reinclude(), &mut wr, SPlan { every: true, beacons: 3 });
+        sink.note("w_reinclude", &format!("letters={} sfails={:?}", o.letters, o.sfails));
+        emit(&mut sink, "corpus-reinclude", &o, "a transaction of an abandoned block included again in another block of the new fork", args.only);
+    }
+    {
         let mut o = run_history(&env, &w_beacon_inside(), &mut wr, SPlan { every: true, beacons: 0 });
         // beacon 40 lies inside the stored range [30,45)
         let a = chain_of(1, 1..=50, |n| n * 10, 1);
@@ -1342,11 +1661,30 @@ fn main() {
         emit(&mut sink, &t, &o, &format!("{}: {}…", tag, short), args.only);
     }
     sink.note("grid_streamer_branches", &format!("{:?}", grid_branches));
+    let mut reinc = (0u64, 0u64, 0u64);
+    for (tag, h) in reinclude_histories() {
+        if !sink.wanted() {
+            sink.skip();
+            continue;
+        }
+        let o = run_history(&env, &h, &mut wr, SPlan { every: true, beacons: 3 });
+        reinc.0 += o.reincluded;
+        reinc.1 += o.s_checks;
+        reinc.2 += o.s2_checks;
+        let t = match &o.taint {
+            Some(c) => format!("{}-{}", tag, c),
+            None => tag.to_string(),
+        };
+        let short: String = o.req.chars().take(400).collect();
+        emit(&mut sink, &t, &o, &format!("{}: {}…", tag, short), args.only);
+    }
+    sink.note("grid_reinclude", &format!("re-included transactions stored under a new block={} fresh-import comparisons={} signable-root comparisons={}", reinc.0, reinc.1, reinc.2));
 
     // ---- generated histories -------------------------------------------------------------------
     let n = args.extra.get("n").and_then(|x| x.parse().ok()).unwrap_or(if args.thorough() { 9_000 } else { 900 });
     let mut letters: BTreeMap<char, u64> = BTreeMap::new();
     let (mut s1, mut s2, mut tainted) = (0u64, 0u64, 0u64);
+    let (mut reincluded, mut reinc_hist) = (0u64, 0u64);
     let mut branches = [0u64; 5];
     for i in 0..n {
         let mut r = rng.fork();
@@ -1372,6 +1710,10 @@ fn main() {
         }
         s1 += o.s_checks;
         s2 += o.s2_checks;
+        reincluded += o.reincluded;
+        if o.reincluded > 0 {
+            reinc_hist += 1;
+        }
         for k in 0..5 {
             branches[k] += o.branches[k];
         }
@@ -1398,6 +1740,7 @@ fn main() {
             branches[0], branches[1], branches[2], branches[3], branches[4]
         ),
     );
+    sink.note("reincluded_transactions_seen_stored_under_a_new_block", &format!("{} in {} generated histories", reincluded, reinc_hist));
     sink.note("S1_fresh_import_comparisons", &s1.to_string());
     sink.note("S2_signable_root_comparisons", &s2.to_string());
     sink.note("histories_with_a_classified_event", &tainted.to_string());
